@@ -25,7 +25,7 @@ def jobs(tier, seed):
             js.append(f"scan-{k}-{n}")
     for n in range(0, (4 if tier == 'quick' else 5) + 1):
         js.append(f"render-{n}")
-    return js + ['native'] + [f"pipe-{i}of{NPIPE}" for i in range(NPIPE)]
+    return js + ['native'] + [f"enum-{r}-{a}" for r in (0, 1, 2) for a in (-1, 1, 2, 3) if r or a > 0] + [f"pipe-{i}of{NPIPE}" for i in range(NPIPE)]
 
 
 NPIPE = 16
@@ -309,6 +309,50 @@ def confirm(chk, sig, what, txt):
         chk.res.inconclusive.append(f"kernel panic not reproduced through the public API: {sig}: {what}")
 
 
+def job_enum(prog, chk, r, a, tier):
+    """the ENUMERATED numbering of the lexer (assign_enumeral_indices, the part of the lexer that computes with the integers of the
+    input), Enumerated::from and format_enum_members on r root items and a additions (-1: no marker), every explicit number ANY
+    i128 (no validity assumed: equal numbers, decreasing additions, i128::MIN / MAX): no panic path may be feasible"""
+    from . import C14
+    K = C14.Kernel(prog)
+    W = 128
+    for rmask in itertools.product([False, True], repeat=r):
+        for amask in itertools.product([False, True], repeat=max(a, 0)):
+            if not any(rmask) and not any(amask):
+                continue
+            rexp = [z3.BitVec(f"r{i}", W) if m else None for i, m in enumerate(rmask)]
+            aexp = [z3.BitVec(f"a{i}", W) if m else None for i, m in enumerate(amask)]
+            role = 'root[' + ','.join('n' if m else '-' for m in rmask) + ']' + (' ...' if a >= 0 else '') + ' add[' + ','.join('n' if m else '-' for m in amask) + ']'
+            for res in chk.explore(lambda ex: K.run(ex, rexp, aexp if a > 0 else None, a >= 0)):
+                chk.res.obligations += 1
+                if res.kind == 'ok':
+                    chk.res.discharged += 1
+                    continue
+                if res.kind != 'panic':
+                    continue
+                m = chk.model_of(res.pc) if res.pc else None
+                rv = [None if e is None else (model_int(m, e, True) if m is not None else 0) for e in rexp]
+                av = [None if e is None else (model_int(m, e, True) if m is not None else 0) for e in aexp]
+                text = C14.enum_text(rv, av, a >= 0)
+                runner = native.Runner(timeout=10)
+                try:
+                    bad = None
+                    for backend in ('rasn', 'ts'):
+                        out = runner.compile(text, backend=backend)
+                        if out.get('panic') or out.get('crash') is not None or out.get('hang'):
+                            bad = (backend, out.get('panic') or ('hang' if out.get('hang') else 'crash'))
+                            break
+                finally:
+                    runner.close()
+                if bad:
+                    chk.violation(f"C08 enumerated numbering {role}", f"{res.value[0]}; native ({bad[0]} backend): {bad[1]} on {text!r}", {'kind': 'text', 'text': text})
+                else:
+                    chk.res.inconclusive.append(f"kernel panic not reproduced natively: {role}: {res.value[0]} on {text!r}")
+            chk.witness('numbering with unconstrained numbers explored', True)
+    chk.sample({'kernel': C14.NUMBER, 'root': r, 'additions': a})
+    chk.res.bounds = {'enum kernel': 'root items <= 2, additions <= 3, every explicit number any i128'}
+
+
 def job_render(prog, chk, n, tier):
     fn = prog.find(C17.CTX)
     f = prog.inst[fn]
@@ -409,6 +453,8 @@ def run_job(prog, job, tier, seed):
         job_scan(prog, chk, p[1], int(p[2]), tier)
     elif p[0] == 'render':
         job_render(prog, chk, int(p[1]), tier)
+    elif p[0] == 'enum':
+        job_enum(prog, chk, int(p[1]), int(job.split('-', 2)[2]), tier)
     else:
         job_native(prog, chk, tier, seed)
     return chk.res
